@@ -149,6 +149,7 @@ def run(ctx, nmax_tie=None, nmax_or=None):
             for classical in (True, False):
                 tie_case(ctx, n, pattern, classical)
     boundary_cases(ctx)
+    _diversity_cases(ctx)
     nmax_or = nmax_or or (4 if ctx.quick else 5)
     for n in range(1, nmax_or + 1):
         pats = list(itertools.product([0, 1], repeat=n))
@@ -257,11 +258,315 @@ def boundary_cases(ctx, nmax_q=None):
                     ctx.count("boundary:P(aux=0) exactly 1 / exactly 0")
 
 
+# ------------------------------------------------------------------------------------------------
+# input-diversity section: register orders, argument kinds, bit types, call forms
+# ------------------------------------------------------------------------------------------------
+
+DIVERSITY = {
+    "element types": "classical pattern bits as python int list / tuple / bool list / numpy int64, int8, uint8, bool_ arrays / list of "
+                     "numpy scalars",
+    "call forms": "every order of the registers (pattern, memory, aux) on the circuit, with and without a spectator qubit in front / "
+                  "between; q_memory and the quantum pattern given as QuantumRegister / list of Qubit objects / list of integer "
+                  "indices / permuted and non-contiguous sub-lists of wider registers; q_auxiliary as Qubit / one-qubit register / "
+                  "integer index; all arguments by keyword; is_classical_pattern positional / keyword / default; two retrievals of "
+                  "different sizes on one circuit",
+    "scale / phase of the memory": "heavy head + light tail (1e-3 .. 1e-6), all-equal moduli with phases +-1, +-i, negative reals, "
+                                   "purely imaginary, a single stored string (the memory enters linearly; compared label by label)",
+    "sizes": "n = 1, 2, 3 (every layout), 4 (sampled)",
+}
+BIT_FORMS = {
+    "int-list": lambda b: [int(x) for x in b], "tuple": lambda b: tuple(int(x) for x in b), "bool-list": lambda b: [bool(x) for x in b],
+    "np-int64": lambda b: np.array(b, dtype=np.int64), "np-int8": lambda b: np.array(b, dtype=np.int8),
+    "np-uint8": lambda b: np.array(b, dtype=np.uint8), "np-bool": lambda b: np.array(b, dtype=bool),
+    "list-np-int64": lambda b: [np.int64(x) for x in b], "list-np-bool": lambda b: [np.bool_(x) for x in b],
+}
+ARG_KINDS = ("register", "qubits", "ints")
+LAYOUTS_Q = [("p", "m", "a"), ("m", "a", "p"), ("a", "m", "p"), ("a", "p", "m"), ("m", "p", "a"), ("p", "a", "m"),
+             ("s", "p", "m", "a"), ("m", "s", "a", "p"), ("a", "s", "p", "m")]
+LAYOUTS_C = [("m", "a"), ("a", "m"), ("s", "m", "a"), ("a", "s", "m"), ("m", "s", "a")]
+
+
+def build_layout(n, pattern, classical, layout, kinds, perm=None, wide=False, bitform="int-list", callform="positional"):
+    """host circuit with the registers declared in `layout` order ('s' = one spectator qubit); kinds = (memory, pattern, aux) argument
+    kinds; perm = order in which the n memory (and pattern) qubits are handed over; wide = memory / pattern registers have n + 1
+    qubits of which n are used.  Returns (circuit, wires dict)."""
+    from qiskit import QuantumCircuit, QuantumRegister
+    from qclib.memory import pqm
+    size = n + 1 if wide else n
+    regs = {"m": QuantumRegister(size, "m"), "a": QuantumRegister(1, "a"), "s": QuantumRegister(1, "s")}
+    if not classical:
+        regs["p"] = QuantumRegister(size, "p")
+    circ = QuantumCircuit(*[regs[x] for x in layout])
+    perm = list(perm) if perm is not None else list(range(n))
+    idx = lambda q: circ.find_bit(q).index
+    m_q = [regs["m"][j] for j in perm]
+    mk, pk, ak = kinds
+
+    def arg(reg, qs, kind):
+        if kind == "register":
+            return reg
+        if kind == "ints":
+            return [idx(q) for q in qs]
+        return list(qs)
+    q_memory = arg(regs["m"], m_q, mk)
+    q_aux = regs["a"] if ak == "register" else idx(regs["a"][0]) if ak == "ints" else regs["a"][0]
+    if classical:
+        pat = BIT_FORMS[bitform](pattern)
+        p_wires = [0] * n
+    else:
+        p_q = [regs["p"][j] for j in (perm[::-1] if wide else perm)]      # an independent order when the registers are wide
+        pat = arg(regs["p"], p_q, pk)
+        p_wires = [idx(q) for q in p_q]
+    if callform == "keyword":
+        pqm.initialize(circuit=circ, pattern=pat, q_memory=q_memory, q_auxiliary=q_aux, is_classical_pattern=classical)
+    elif callform == "positional-flag":
+        pqm.initialize(circ, pat, q_memory, q_aux, classical)
+    elif callform == "default-flag" and not classical:
+        pqm.initialize(circ, pat, q_memory, q_aux)
+    else:
+        pqm.initialize(circ, pat, q_memory, q_aux, is_classical_pattern=classical)
+    wires = dict(mem=[idx(q) for q in m_q], pat=p_wires, aux=idx(regs["a"][0]),
+                 spect=[idx(regs["s"][0])] if "s" in layout else [])
+    return circ, wires
+
+
+def _bits_at(idx, wires):
+    return sum(((idx >> w) & 1) << k for k, w in enumerate(wires))
+
+
+def _place(val, wires):
+    return sum(((val >> k) & 1) << w for k, w in enumerate(wires))
+
+
+def layout_oracle(ctx, key, rep, circ, w, n, pattern, classical, mem_state, pat_state=None):
+    """label by label: P(label, aux=0) = p0 cos^2(pi d / 2n), P(label, aux=1) = p0 sin^2, nothing anywhere else (spectators and unused
+    qubits untouched); pattern bit k pairs with memory qubit k of the handed-over lists"""
+    from qiskit.quantum_info import Statevector
+    nq = circ.num_qubits
+    pint = sum(int(b) << k for k, b in enumerate(pattern))
+    init = np.zeros(2 ** nq, dtype=complex)
+    sp = sum(1 << x for x in w["spect"])               # spectator in |1>
+    ps = {pint: 1.0} if classical or pat_state is None else pat_state
+    for pv, c in ps.items():
+        for m, a in enumerate(mem_state):
+            init[sp | _place(m, w["mem"]) | (0 if classical else _place(pv, w["pat"]))] += a * c
+    out = Statevector(init).evolve(circ).data
+    probs = np.abs(out) ** 2
+    want = np.zeros(2 ** nq)
+    aux = w["aux"]
+    for idx in np.nonzero(init)[0]:
+        idx = int(idx)
+        m = _bits_at(idx, w["mem"])
+        pv = pint if classical else _bits_at(idx, w["pat"])
+        d = hamming(m, pv, n)
+        p0 = abs(init[idx]) ** 2
+        want[idx] += p0 * math.cos(math.pi * d / (2 * n)) ** 2
+        want[idx | (1 << aux)] += p0 * math.sin(math.pi * d / (2 * n)) ** 2
+    worst = float(np.abs(probs - want).max())
+    # total probability of reading 0 on the auxiliary
+    p_aux0 = float(sum(x for i, x in enumerate(probs) if not (i >> aux) & 1))
+    w_aux0 = float(sum(x for i, x in enumerate(want) if not (i >> aux) & 1))
+    rep = dict(rep, worst_abs_err=worst)
+    if worst > 1e-9 or abs(p_aux0 - w_aux0) > 1e-9:
+        ctx.fail(key, f"cosine law / marginals violated by {worst:.3e}; P(aux=0) = {p_aux0:.9f}, law {w_aux0:.9f}", rep)
+    else:
+        nz = int(np.sum(np.abs(mem_state) > 1e-12))
+        ctx.ok(key, nontrivial=nz >= 2, sample={"n": n, "pattern": [int(b) for b in pattern], "classical": classical,
+                                                "layout": rep.get("layout"), "worst_abs_err": worst})
+
+
+def layout_case(ctx, name, n, pattern, classical, mem_state, layout, kinds=("register", "register", "qubits"), perm=None, wide=False,
+                bitform="int-list", callform="keyword-flag", pat_state=None, tie=True):
+    from flatten import flatten, to_lines
+    pattern = [int(b) for b in pattern]
+    tag = (f"{''.join(layout)}:{kinds[0]}-{kinds[1]}-{kinds[2]}:perm={''.join(map(str, perm)) if perm else 'id'}:"
+           f"{'wide' if wide else 'tight'}:{bitform}:{callform}")
+    key = f"pqm:div:n={n}:p={''.join(map(str, pattern))}:{int(classical)}:{tag}"
+    rep = {"call": "qclib.memory.pqm.initialize", "div": True, "name": name, "n": n, "pattern": pattern, "classical": classical,
+           "memory": [[float(np.real(a)), float(np.imag(a))] for a in mem_state], "layout": list(layout), "kinds": list(kinds),
+           "perm": None if perm is None else list(perm), "wide": wide, "bitform": bitform, "callform": callform,
+           "pat_state": None if pat_state is None else [[int(k), float(np.real(c)), float(np.imag(c))] for k, c in pat_state.items()]}
+    for c in ("diversity:" + name, "diversity:layout:" + "".join(layout), "diversity:args:" + "-".join(kinds),
+              "diversity:bits:" + bitform, "diversity:call:" + callform):
+        ctx.count(c)
+    try:
+        circ, w = build_layout(n, pattern, classical, layout, kinds, perm, wide, bitform, callform)
+    except Exception as e:
+        ctx.fail(key + ":raises", f"{type(e).__name__}: {e}", rep)
+        return
+    if tie:
+        ctx.tie({"op": "pqm", "n": n, "classical": classical, "pattern": pattern, "mem": w["mem"], "pat": w["pat"], "aux": w["aux"],
+                 "theta_m": -math.pi / (2 * n), "theta_c": math.pi / n}, to_lines(flatten(circ)))
+    layout_oracle(ctx, key, rep, circ, w, n, pattern, classical, mem_state, pat_state)
+
+
+def _memory_forms(ctx, n):
+    """memories of different scale / phase structure (name, vector)"""
+    r = ctx.nprng()
+    N = 2 ** n
+    out = []
+    for where in ("start", "end"):
+        v = np.array([10.0 ** (-3 - 3 * j / max(1, N - 2)) * [1, -1, 1j, -1j][j % 4] for j in range(N)], dtype=complex)
+        v[0 if where == "start" else N - 1] = -0.8
+        if N > 2:
+            v[1 if where == "start" else N - 2] = 0.6j
+        out.append(("head-tail-" + where, v / np.linalg.norm(v)))
+    out.append(("equal-moduli-4-phases", np.array([[1, -1, 1j, -1j][int(r.integers(4))] for _ in range(N)], dtype=complex) / math.sqrt(N)))
+    out.append(("all-negative", -np.abs(r.normal(size=N)) / 1.0))
+    out.append(("imaginary", 1j * r.normal(size=N)))
+    one = np.zeros(N, dtype=complex)
+    one[int(r.integers(N))] = -1.0
+    out.append(("single-string", one))
+    return [(nm, np.asarray(v, dtype=complex) / np.linalg.norm(v)) for nm, v in out]
+
+
+def _diversity_cases(ctx):
+    rng = ctx.rng
+
+    def rnd_pattern(n, asym=True):
+        for _ in range(50):
+            pt = [rng.randint(0, 1) for _ in range(n)]
+            if not asym or n == 1 or (pt != pt[::-1] and any(pt)):
+                return pt
+        return [1] + [0] * (n - 1)
+
+    # ---- register orders x argument kinds (quantum and classical pattern), n = 1, 2, 3; sampled at n = 4
+    for n in (1, 2, 3, 4):
+        for classical, layouts in ((False, LAYOUTS_Q), (True, LAYOUTS_C)):
+            for li, layout in enumerate(layouts):
+                if n == 4 and (li % 3 != rng.randrange(3) or (not classical and "s" in layout)):
+                    continue
+                for ki in range(3):
+                    kinds = (ARG_KINDS[(ki + li) % 3], ARG_KINDS[(ki + 2 * li + 1) % 3], ARG_KINDS[(2 * ki + li) % 3])
+                    perm = None
+                    if kinds[0] != "register" and kinds[1] != "register" and n >= 2:
+                        perm = rng.sample(range(n), n)
+                        if perm == sorted(perm):
+                            perm = perm[::-1]
+                    elif kinds[0] == "register" or (kinds[1] == "register" and not classical):
+                        kinds = ("register", "register" if not classical else kinds[1], kinds[2])   # both whole registers, same order
+                    pattern = rnd_pattern(n)
+                    ms = rand_state(ctx, 2 ** n, rng.choice(["haar", "sparse"]))
+                    callform = ["keyword-flag", "keyword", "positional-flag", "default-flag"][(li + ki + n) % 4]
+                    layout_case(ctx, "register order x argument kind", n, pattern, classical, ms, layout, kinds, perm,
+                                callform=callform)
+                    if n >= 4:
+                        break
+    # ---- permuted, non-contiguous sub-lists of wider registers (n of n + 1 qubits, memory and pattern lists in different orders)
+    for n in (1, 2, 3):
+        for classical in (True, False):
+            for layout in (("p", "m", "a"), ("a", "m", "p")) if not classical else (("a", "m"), ("m", "s", "a")):
+                perm = rng.sample(range(n + 1), n)
+                for kinds in (("qubits", "qubits", "qubits"), ("ints", "ints", "ints"), ("qubits", "ints", "register")):
+                    layout_case(ctx, "sub-lists of wider registers", n, rnd_pattern(n), classical, rand_state(ctx, 2 ** n, "haar"),
+                                layout, kinds, perm, wide=True)
+    # ---- bit types of the classical pattern, on a layout where the memory is not first
+    for n in (1, 2, 3):
+        for bi, bitform in enumerate(BIT_FORMS):
+            layout = LAYOUTS_C[(bi + n) % len(LAYOUTS_C)]
+            pattern = rnd_pattern(n)
+            layout_case(ctx, "bit type of the classical pattern", n, pattern, True, rand_state(ctx, 2 ** n, "haar"), layout,
+                        ("register", "register", ARG_KINDS[bi % 3]), bitform=bitform)
+            layout_case(ctx, "bit type of the classical pattern", n, [0] * n if bi % 2 else [1] * n, True,
+                        rand_state(ctx, 2 ** n, "sparse"), layout, ("qubits", "register", "qubits"), bitform=bitform)
+    # ---- scale / phase structure of the memory and a superposed quantum pattern on a non-default register order
+    for n in (1, 2, 3):
+        for nm, v in _memory_forms(ctx, n):
+            for classical in (True, False):
+                layout = rng.choice(LAYOUTS_C[1:] if classical else LAYOUTS_Q[1:6])
+                layout_case(ctx, "memory " + nm, n, rnd_pattern(n, asym=False), classical, v, layout, ("qubits", "qubits", "qubits"))
+        ps = rand_state(ctx, 2 ** n, "haar")
+        layout_case(ctx, "superposed quantum pattern, register order m a p", n, [0] * n, False, rand_state(ctx, 2 ** n, "haar"),
+                    ("m", "a", "p"), ("register", "register", "qubits"), pat_state={k: c for k, c in enumerate(ps)})
+        layout_case(ctx, "superposed quantum pattern, permuted int lists", n, [0] * n, False, rand_state(ctx, 2 ** n, "haar"),
+                    ("a", "p", "m"), ("ints", "ints", "ints"), perm=list(range(n))[::-1], pat_state={k: c for k, c in enumerate(ps)})
+    # ---- two retrievals of different sizes on one circuit (nothing may be remembered between calls)
+    two_calls(ctx)
+
+
+def two_calls(ctx):
+    from qiskit import QuantumCircuit, QuantumRegister
+    from qiskit.quantum_info import Statevector
+    from qclib.memory import pqm
+    rng = ctx.rng
+    for (n1, n2) in ((1, 2), (2, 1), (2, 3), (3, 2)):
+        for classical in (True, False):
+            ctx.count("diversity:two retrievals of different sizes on one circuit")
+            p1 = [rng.randint(0, 1) for _ in range(n1)]
+            p2 = [rng.randint(0, 1) for _ in range(n2)]
+            p2[0] = 1
+            key = f"pqm:div:two-calls:n={n1},{n2}:p={''.join(map(str, p1))},{''.join(map(str, p2))}:{int(classical)}"
+            rep = {"call": "qclib.memory.pqm.initialize x2", "two_calls": True, "n1": n1, "n2": n2, "p1": p1, "p2": p2, "classical": classical}
+            a, m1, m2 = QuantumRegister(2, "a"), QuantumRegister(n1, "m1"), QuantumRegister(n2, "m2")
+            try:
+                if classical:
+                    circ = QuantumCircuit(a, m1, m2)
+                    pqm.initialize(circ, p1, m1, a[0], is_classical_pattern=True)
+                    pqm.initialize(circ, p2, m2, a[1], is_classical_pattern=True)
+                    ref = []
+                    for (nn, pp, aw, mw) in ((n1, p1, 0, list(range(2, 2 + n1))), (n2, p2, 1, list(range(2 + n1, 2 + n1 + n2)))):
+                        c1 = QuantumCircuit(a, m1, m2)
+                        pqm.initialize(c1, pp, [c1.qubits[i] for i in mw], c1.qubits[aw], is_classical_pattern=True)
+                        ref.append(c1)
+                else:
+                    q1, q2 = QuantumRegister(n1, "q1"), QuantumRegister(n2, "q2")
+                    circ = QuantumCircuit(a, q1, m1, q2, m2)
+                    for x, b in zip(q1, p1):
+                        if b:
+                            circ.x(x)
+                    for x, b in zip(q2, p2):
+                        if b:
+                            circ.x(x)
+                    pre = circ.copy()
+                    pqm.initialize(circ, q1, m1, a[0])
+                    pqm.initialize(circ, q2, m2, a[1])
+                    ref = None
+                nq = circ.num_qubits
+                # memories: uniform superposition on both registers (H layer in front)
+                front = QuantumCircuit(*circ.qregs)
+                front.h(list(m1) + list(m2))
+                out = Statevector(front.compose(circ)).data
+                probs = np.abs(out) ** 2
+                iw = lambda q: circ.find_bit(q).index
+                want = np.zeros(2 ** nq)
+                for v1 in range(2 ** n1):
+                    for v2 in range(2 ** n2):
+                        base = _place(v1, [iw(q) for q in m1]) | _place(v2, [iw(q) for q in m2])
+                        if not classical:
+                            base |= _place(sum(b << k for k, b in enumerate(p1)), [iw(q) for q in q1])
+                            base |= _place(sum(b << k for k, b in enumerate(p2)), [iw(q) for q in q2])
+                        d1 = hamming(v1, sum(b << k for k, b in enumerate(p1)), n1)
+                        d2 = hamming(v2, sum(b << k for k, b in enumerate(p2)), n2)
+                        p0 = 1.0 / 2 ** (n1 + n2)
+                        for b1 in (0, 1):
+                            for b2 in (0, 1):
+                                f1 = (math.cos if b1 == 0 else math.sin)(math.pi * d1 / (2 * n1)) ** 2
+                                f2 = (math.cos if b2 == 0 else math.sin)(math.pi * d2 / (2 * n2)) ** 2
+                                want[base | b1 | (b2 << 1)] += p0 * f1 * f2
+                worst = float(np.abs(probs - want).max())
+            except Exception as e:
+                ctx.fail(key + ":raises", f"{type(e).__name__}: {e}", rep)
+                continue
+            if worst > 1e-9:
+                ctx.fail(key, f"two consecutive retrievals: joint distribution off by {worst:.3e}", rep)
+            else:
+                ctx.ok(key, nontrivial=True)
+
+
 def search(ctx, hints):
     run(ctx, nmax_tie=1, nmax_or=5)
 
 
 def replay(ctx, payload):
     r = payload["replay"]
+    if r.get("two_calls"):
+        two_calls(ctx)
+        return
     ms = np.array([complex(a, b) for a, b in r["memory"]])
+    if r.get("div"):
+        ps = r.get("pat_state")
+        layout_case(ctx, r.get("name", "replay"), r["n"], r["pattern"], r["classical"], ms, tuple(r["layout"]), tuple(r["kinds"]),
+                    r.get("perm"), r.get("wide", False), r.get("bitform", "int-list"), r.get("callform", "keyword-flag"),
+                    pat_state=None if not ps else {int(k): complex(a, b) for k, a, b in ps}, tie=False)
+        return
     oracle_case(ctx, r["n"], r["pattern"], r["classical"], ms, payload["key"], form=r.get("form", "plain"))
